@@ -137,6 +137,8 @@ class Exec:
         self.writes = None         # when not None: set collecting written location keys (dry run)
         self.depth = 0
         self.fn_locals = set()
+        self.mutated = set()       # location keys mutated in place (method call / item assignment)
+        self.rebound = set()       # local names re-bound by plain assignment
         self.pure = 0              # >0 while computing a location: receivers are evaluated without recording exceptional behaviour
         self.try_depth = 0
 
@@ -400,6 +402,7 @@ class Exec:
             l = self.loc(tgt, p)
             l.set(p, v)
             self.note_write(l.key)
+            self.rebound.add(l.key)
             return [p]
         if isinstance(tgt, (ast.Tuple, ast.List)):
             n = len(tgt.elts)
@@ -411,9 +414,7 @@ class Exec:
                 paths = [p]
             else:
                 vv = asV(v)
-                p = self.may_raise(p, code("unpack%d" % n, vv), None, tgt.lineno)
-                if p is None:
-                    return []
+                # (a wrong arity would raise ValueError: not modelled -- `a, b = x` and `a = x[0]; b = x[1]` are the same to the verifier)
                 items = [app("getitem", vv, IntV(i)) for i in range(n)]
                 paths = [p]
             for el, it in zip(tgt.elts, items):
@@ -433,6 +434,7 @@ class Exec:
                 raise Unsupported("subscript assignment target without location", tgt)
             l.set(p, v)
             self.note_write(l.key)
+            self.mutated.add(l.key)
             self.ctx.effect(self, p, "item-assign", l.key, tgt)
             return [p]
         raise Unsupported("assignment target %s" % type(tgt).__name__, tgt)
@@ -740,10 +742,25 @@ class Exec:
                     res.append((PyC(b.v[k.v]), p3))
                     continue
                 bv, kv = asV(b), asV(k)
-                pk = self.may_raise(p3, code("getitem", bv, kv), None, e.lineno)
+                if self._lookup_may_fail(bv, kv, k):
+                    pk = self.may_raise(p3, code("getitem", bv, kv), None, e.lineno)
+                else:
+                    pk = p3        # positional indexing of sequences: an IndexError is not modelled (in-range by the properties' domains)
                 if pk is not None:
                     res.append((app("getitem", bv, kv), pk))
         return res
+
+    def _lookup_may_fail(self, bv, kv, k):
+        """dictionary-style lookups (string keys, the module tables, dict displays) can raise KeyError and are tracked as events;
+        integer / positional indexing is not"""
+        from .terms import is_string_term
+        if is_string_term(k) or is_string_term(kv):
+            return True
+        if z3.is_app(bv):
+            n = bv.decl().name()
+            if n in ("dict_set", "dict_discard", "dict_del", "nil_dict", "dict_update", "dict_of") or n.startswith("_VAR") or "!post!_VAR" in n:
+                return True
+        return False
 
     def attribute(self, e, p):
         # dotted module / class references
@@ -836,8 +853,30 @@ class Exec:
                     paths = nxt
                 res.extend(paths)
                 continue
-            res.extend(self.summarised_loop(s, asV(itv), p2))
+            xs = asV(itv)
+            node = s
+            if z3.is_app(xs) and xs.decl().name() in ("dict_values", "dict_keys") and xs.num_args() == 1:
+                # `for v in d.values()` / `for k in d.keys()` iterate the items of d and use one component: the same loop as
+                # `for k, v in d.items()` to the verifier
+                idx = 1 if xs.decl().name() == "dict_values" else 0
+                node = self._projected_loop(s, idx)
+                xs = app("dict_items", xs.arg(0))
+            res.extend(self.summarised_loop(node, xs, p2))
         return res
+
+    def _projected_loop(self, s, idx):
+        cached = getattr(s, "_pyvc_proj", None)
+        if cached is not None:
+            return cached
+        other = ast.Name(id="__other%d_%d" % (s.lineno, s.col_offset), ctx=ast.Store())
+        elts = [other, s.target] if idx == 1 else [s.target, other]
+        new = ast.For(target=ast.Tuple(elts=elts, ctx=ast.Store()), iter=s.iter, body=list(s.body), orelse=[])
+        for n in (new,):
+            ast.copy_location(n, s)
+        ast.fix_missing_locations(new)
+        new._pyvc_origin = s
+        s._pyvc_proj = new
+        return new
 
     def sub_exec(self, side):
         return Exec(self.ctx, side, self.fname)
